@@ -186,7 +186,9 @@ theorem noteLabel_T (s : DC) (h : TInv s) (x : Xml) (k : String) (hw : wBound x)
       unfold hasId at hn
       cases hid : x.attrReq (lit "w") (lit "id") with
       | error e => simp [hid, Except.isOk] at hn
-      | ok id => exact ⟨_, by simp only [Bool.false_eq_true, if_false, ok_bind]; rfl, queueRun_T s h _⟩
+      | ok id =>
+        obtain ⟨s0, h0, t0⟩ := flushImplicit_total (P := TInv) concludePar_T s (some 4) h
+        exact ⟨_, by simp only [Bool.false_eq_true, if_false, ok_bind, h0]; rfl, queueRun_T s0 t0 _⟩
 
 theorem symCode_ok (x : Xml) (hw : wBound x) : ∃ c, symCode x = .ok c := by
   unfold symCode attrStrOrNone
